@@ -62,6 +62,9 @@ func (c *invChecker) inspect(s *engine.Sim) {
 	if s.MaxUnregistered > 1 {
 		c.add("C03", "unaccounted-goroutines", fmt.Sprintf("%d goroutines alive in the bubble besides workers, loop, spawner and harness goroutines (step %d)", s.MaxUnregistered, s.Steps))
 	}
+	if n := s.ForeignLive(); n > 0 {
+		c.add("C03", "foreign-goroutines", fmt.Sprintf("%d goroutines that neither the harness nor the scheduler's worker/loop/spawner sites started are alive inside user-visible callbacks (step %d)", n, s.Steps))
+	}
 }
 
 // schedOrder maps the i-th scheduler created in the run to its descriptor
